@@ -149,6 +149,14 @@ func c15Run(c c15Case) (string, string) {
 
 func runC15(R *vlib.Out) {
 	if *vlib.ReplayPath != "" {
+		var probe struct {
+			Scenario string `json:"scenario"`
+		}
+		vlib.LoadReplay(&probe)
+		if probe.Scenario == "c15s" {
+			replaySched(R, c15SchedScenario)
+			return
+		}
 		var c c15Case
 		vlib.LoadReplay(&c)
 		R.Eval()
@@ -163,7 +171,16 @@ func runC15(R *vlib.Out) {
 		prefixes = append(prefixes, []string{a})
 		for _, b := range evs {
 			prefixes = append(prefixes, []string{a, b})
+			if *vlib.Tier == "thorough" {
+				for _, c := range evs {
+					prefixes = append(prefixes, []string{a, b, c})
+				}
+			}
 		}
+	}
+	closeTimeouts := []int{0, 1000, 10000}
+	if *vlib.Tier == "thorough" {
+		closeTimeouts = []int{0, 1, 100, 1000, 2500, 10000, 60000}
 	}
 	unit := 0
 	try := func(c c15Case) bool {
@@ -189,8 +206,9 @@ func runC15(R *vlib.Out) {
 		}
 		return true
 	}
+	defer runC15Sched(R)
 	for _, role := range []string{"acc", "ini"} {
-		for _, ct := range []int{0, 1000, 10000} {
+		for _, ct := range closeTimeouts {
 			for _, p := range prefixes {
 				if !try(c15Case{Role: role, CloseMs: ct, Prefix: p, Ending: "peer-logout", HB: 30}) {
 					return
@@ -215,5 +233,104 @@ func runC15(R *vlib.Out) {
 				}
 			}
 		}
+	}
+}
+
+// ---- schedule exploration: the peer answers the Logout the instant it is on the wire ----
+
+type c15SObs struct {
+	logouts   int
+	logoutEv  int
+	ctxDone   bool
+	ctxDoneAt time.Duration
+	answerAt  time.Duration
+	t0        time.Duration
+	errs      int
+}
+
+func c15SchedScenario(name string, p map[string]any) *schedScenario {
+	role, how, buf := pstr(p, "role"), pstr(p, "how"), pint(p, "buf")
+	var obs c15SObs
+	sc := &schedScenario{Name: "c15s", Params: p, Strict: true, Delay: false}
+	sc.Body = func() {
+		obs = c15SObs{answerAt: -1}
+		var w *world
+		vsched.Deterministic(func() {
+			w = newWorld(wcfg{Role: role, Buf: buf, HbMin: 1, HbMax: 60, HbInt: 30, CloseTimeout: 10 * time.Second})
+			w.logonOK(30)
+			time.Sleep(500 * time.Millisecond)
+			vsched.Settle()
+		})
+		w.take()
+		ev0 := w.logoutEv
+		answered := false
+		w.onOut = func(m []byte) {
+			if mtype(m) == "5" && !answered {
+				answered = true
+				obs.answerAt = vsched.NowOffset()
+				w.h.ServeIncoming(w.msg("5")) // the peer's Logout answer, causally after our Logout left
+			}
+		}
+		obs.t0 = vsched.NowOffset()
+		if how == "stop" {
+			if err := w.s.Stop(); err != nil {
+				obs.errs++
+			}
+		} else {
+			_ = w.s.Logout()
+		}
+		vsched.Settle()
+		time.Sleep(15 * time.Second)
+		vsched.Settle()
+		obs.logouts = countType(w.outs[w.taken:], "5")
+		obs.logoutEv = w.logoutEv - ev0
+		obs.ctxDone, obs.ctxDoneAt = w.ctxDone, w.ctxDoneAt
+	}
+	sc.Check = func(r *vsched.Result) (string, string) {
+		det := fmt.Sprintf("logouts=%d EventLogout=%d ctxDone=%v at +%v answer at +%v", obs.logouts, obs.logoutEv, obs.ctxDone, obs.ctxDoneAt-obs.t0, obs.answerAt-obs.t0)
+		if obs.logouts != 1 {
+			return "race:second-logout-on-immediate-answer", det
+		}
+		if how == "logout" && obs.logoutEv != 1 {
+			return "race:logout-event-not-raised-on-immediate-answer", det
+		}
+		if how == "stop" {
+			if !obs.ctxDone {
+				return "race:stop-context-never-cancelled", det
+			}
+			if obs.ctxDoneAt != obs.answerAt {
+				return "race:stop-immediate-answer-does-not-cancel", det
+			}
+		}
+		return "", ""
+	}
+	sc.Outcome = func() string {
+		return fmt.Sprintf("logouts=%d ev=%d ctx@+%v", obs.logouts, obs.logoutEv, obs.ctxDoneAt-obs.t0)
+	}
+	return sc
+}
+
+func runC15Sched(R *vlib.Out) {
+	bound := 1
+	if *vlib.Tier == "thorough" {
+		bound = 2
+	}
+	var ps []map[string]any
+	for _, role := range []string{"acc", "ini"} {
+		for _, how := range []string{"logout", "stop"} {
+			for _, buf := range []int{0, 1, 10} {
+				ps = append(ps, map[string]any{"role": role, "how": how, "buf": buf})
+			}
+		}
+	}
+	for i, p := range ps {
+		if vlib.Expired() {
+			R.Cap("deadline")
+			break
+		}
+		scenarioBudget = vlib.Remaining() / time.Duration(len(ps)-i)
+		sc := c15SchedScenario("c15s", p)
+		sc.Bound = bound
+		exploreSched(R, sc)
 	}
 }
